@@ -147,6 +147,8 @@ inductive Ev
   | release
   | get (a : Nat)
   | reconnect          -- the connection is lost and re-established at once (frames arrive on the new one from then on)
+  | timedOut (a : Nat) -- a user get() for address `a` with a timeout that expires before there is an entry:
+                       -- it raises and leaves no trace (the callers that are still waiting keep waiting)
 deriving Repr, DecidableEq
 
 /-- addresses of the frames / of the get() calls an event list brings, in order -/
@@ -205,6 +207,7 @@ def applyEv (lk : Bool) (who : Nat → Caller) (cr : Nat → Bool) (r : Replay) 
     | some j => settle lk who cr settleFuel { r with st := step lk who cr r.st j, sched := j :: r.sched }
     | none => none        -- nothing to release: the schedule is not accepted
   | .reconnect => settle lk who cr settleFuel r   -- nothing changes (the event loop runs on)
+  | .timedOut _ => settle lk who cr settleFuel r  -- nothing changes
 
 def getRes : PC → Option Nat
   | .got d => some d
